@@ -408,7 +408,6 @@ fn run_core(case: &Case) -> String {
     let mut launched = vec![false; n];
     let mut has_handle = vec![!legacy; n];
     let mut held: Vec<Held> = (0..n).map(|_| Held::default()).collect();
-    let mut dead = vec![false; n];
     // a task panicked inside a core call: the core is not used any more (QueuingExecutor::run_all can spin forever
     // when a stale waker wakes the slot the panicked task left empty); the rest of the case prints `dead`
     let mut core_dead = false;
@@ -437,7 +436,6 @@ fn run_core(case: &Case) -> String {
         let started = raws[i].is_some();
         let what = match a {
             't' => Do::Nothing,
-            _ if dead[i] => Do::Na,
             'p' if !legacy && !launched[i] => {
                 launched[i] = true;
                 Do::Ev(Event::Launch(i))
@@ -458,7 +456,6 @@ fn run_core(case: &Case) -> String {
             'x' if held[i].clr.is_some() => Do::Drop(true),
             _ => Do::Na,
         };
-        let was_dead = a != 't' && dead[i];
         let r = catch_unwind(AssertUnwindSafe(|| match what {
             Do::Na => ("na", vec![]),
             Do::Nothing => ("-", vec![]),
@@ -477,13 +474,12 @@ fn run_core(case: &Case) -> String {
         }));
         let mut effects = match r {
             Err(_) => {
-                dead[i] = true;
                 core_dead = true;
                 out.push("panic".into());
                 continue;
             }
             Ok((res, effects)) => {
-                rec.push(if was_dead { "dead" } else { res }.into());
+                rec.push(res.into());
                 effects
             }
         };
